@@ -530,3 +530,24 @@ func RunReplays(t *testing.T, rec *Rec, exec func(kind string, c json.RawMessage
 		}
 	}
 }
+
+// B is a string that may hold arbitrary bytes; it is (un)marshalled as a Go
+// quoted ASCII literal so that replay files reproduce invalid UTF-8 exactly.
+type B string
+
+func (b B) MarshalJSON() ([]byte, error) {
+	return json.Marshal(strconv.QuoteToASCII(string(b)))
+}
+
+func (b *B) UnmarshalJSON(data []byte) error {
+	var q string
+	if err := json.Unmarshal(data, &q); err != nil {
+		return err
+	}
+	s, err := strconv.Unquote(q)
+	if err != nil {
+		return err
+	}
+	*b = B(s)
+	return nil
+}
